@@ -17,7 +17,7 @@ import (
 // C18 — like/ilike match by the documented wildcard and case rules.
 
 var evC18 = ev.New("C18", "valid UTF-8 cells (0-40 bytes) over ASCII letters in both cases, digits, blanks, multi-byte letters, code points whose upper-case form has another byte length (dotless i, long s, turned a/alpha, a-stroke, micro sign, Kelvin sign), "+
-	"title-case digraphs, C1 controls incl. U+0080, emoji; 1-30 cells per frame with growing and shrinking lengths (matcher buffer reuse); patterns derived from the cells (substring/prefix/suffix, case flips) or random, % at neither/either/both ends, \"\", \"%\", \"%%\", % in the middle, "+
+	"title-case digraphs, C1 controls incl. U+0080, emoji, runs of 1-9 letters that all grow (or all shrink) by a byte when upper-cased followed by a plain tail; 1-30 cells per frame with growing and shrinking lengths (matcher buffer reuse); patterns derived from the cells (substring/prefix/suffix, case flips) or random, % at neither/either/both ends, \"\", \"%\", \"%%\", % in the middle, "+
 	"regexp metacharacters (valid and invalid); oracle: model of the statement (==/HasPrefix/HasSuffix/Contains, for ilike after strings.ToUpper of both sides; Go regexp anchored where there is no %, (?i) for ilike; compile error => Err; nulls never match) and the same rows from a string column and an enum column; "+
 	"non-trivial = ilike on a frame holding a non-ASCII cell, or a cell longer than its predecessor by more than the initial buffer; distinct = FNV-64 of (cells, comparator, pattern)")
 
